@@ -161,7 +161,8 @@ loop:
 			Msg("Exited")
 
 		if p.isDaemonLaunched() {
-			p.setState(types.ProcessStateLaunched)
+			// a stop request may have marked the daemon Terminating while its launcher was still running
+			p.setStateIf(types.ProcessStateLaunching, types.ProcessStateLaunched)
 			p.waitForDaemonCompletion()
 		}
 
@@ -781,6 +782,18 @@ func (p *Process) setStateIfRunning(state string) bool {
 		return true
 	}
 	return false
+}
+
+// setStateIf sets the state only if the current one is `from` (atomically)
+func (p *Process) setStateIf(from string, state string) bool {
+	p.stateMtx.Lock()
+	defer p.stateMtx.Unlock()
+	if p.procState.Status != from {
+		return false
+	}
+	p.procState.Status = state
+	p.onStateChange(state)
+	return true
 }
 
 // claimEnd marks this instance as ended; only the first caller gets true
